@@ -19,12 +19,15 @@ done
 wait
 grep -L '"confirmed": true' /tmp/confirm_C??${suf}[AB].log 2>/dev/null | sed 's/^/NOT CONFIRMED: /'
 [ -d "$old" ] || { echo "no frozen copy at $old - skipping first-run verdicts"; exit 0; }
-cd /repo
+# first-run verdicts: the frozen copy of the checks against a private worktree carrying the mutant (never /repo itself)
+mr=/tmp/wt/firstrun
+[ -d "$mr" ] || git -C /repo worktree add --detach "$mr" HEAD >/dev/null 2>&1
+git -C "$mr" checkout -q --detach "$(git -C /repo rev-parse HEAD)"; git -C "$mr" reset -q --hard
 for d in /verif/seeded/C??${suf}[AB]; do
   nme=$(basename "$d"); p=${nme:0:3}
-  git apply "$d/patch.diff" || { echo "$nme apply-failed"; continue; }
-  out=$(cd "$old" && ./check "$p" --tier quick 2>/dev/null | grep -E "^$p (held|VIOLATED)|^HARNESS" | head -1)
-  git checkout -- .
+  git -C "$mr" apply "$d/patch.diff" || { echo "$nme apply-failed"; continue; }
+  out=$(cd "$old" && VERIF_REPO="$mr" VERIF_EVIDENCE_DIR=/tmp/verif_mutant_evidence ./check "$p" --tier quick 2>/dev/null | grep -E "^$p (held|VIOLATED)|^HARNESS" | head -1)
+  git -C "$mr" checkout -- .; git -C "$mr" clean -fdq
   echo "$nme $out" | cut -c1-110
   python3 - "$d/meta.json" "$p" "$out" <<'PY'
 import json,sys
